@@ -8,7 +8,7 @@ Ev == Log[l]
 TraceInit == TLCSet(1, 1) /\ l = 1 /\ okv = TRUE
 \* a failing call is reported by index (one line each) instead of as an invariant violation, so that ALL of them are found in one pass
 Call == LET ok == IntervalOK(Ev.n, Ev.burn, Ev.thin, Ev.f8, Ev.m, Ev.rank, Ev.ids, Ev.pids, Ev.ndim)
-        IN okv' = ok /\ (ok \/ PrintT(<<"BAD", l>>))
+        IN okv' = ok /\ (IF ok THEN TRUE ELSE PrintT(<<"BAD", l>>))
 TraceNext == l <= Len(Log) /\ l' = l + 1 /\ Call
 TraceSpec == TraceInit /\ [][TraceNext]_vars
 Holds == okv
